@@ -33,6 +33,8 @@ Rules are phrased over this canonical form so that behaviour-preserving respelli
  N25 `v = D.get(K)` tested with `v is [not] None` -> the tests become `K [not] in D`, the other reads of v become `D[K]`
  N26 a list display that is only iterated over or tested for membership (`for x in [a, b]`, `x in [a, b]`) is a tuple display
  N27 `chain.from_iterable(map(F, XS))` -> `(m for c in XS for m in F(c))`;  N28 `list(<generator expression>)` -> the list comprehension
+ N29 an annotated assignment inside a function `x: T = e` is `x = e`
+ N31 `names = set(CHAIN)` that is only asked `x in names` is CHAIN for that purpose
  N18 a self-assignment `x = x` is dropped
  N6  `v = []` directly followed by `for t in xs: [if c:] v.append(e)` -> `v = [e for t in xs if c]`
 
@@ -79,6 +81,15 @@ class _Norm(ast.NodeTransformer):
                 and not isinstance(n.comparators[0], ast.Constant)):
             return ast.copy_location(ast.Compare(n.comparators[0], n.ops, [n.left]), n)
         return n
+
+    def visit_AnnAssign(self, n: ast.AnnAssign):
+        # N29: an annotated assignment inside a function is the assignment (a bare annotation `x: T` is dropped)
+        self.generic_visit(n)
+        if not self.fn_stack:
+            return n
+        if n.value is None:
+            return ast.copy_location(ast.Pass(), n)
+        return ast.copy_location(ast.Assign([n.target], n.value, lineno=n.lineno), n)
 
     def visit_BoolOp(self, n: ast.BoolOp):
         # N22: `a or (b or c)` -> `a or b or c`
@@ -289,34 +300,62 @@ class _Norm(ast.NodeTransformer):
 
     @staticmethod
     def _propagate_chain_aliases(fn):
-        """N19: a local bound once, in the function's top-level block, to a plain attribute chain (`reg = self.__registered`) whose
-        attributes are not assigned anywhere in the function, is replaced by that chain wherever it is read afterwards"""
+        """N19: a local bound once to a plain attribute chain (`reg = self.__registered`) or to a total test of such chains
+        (`is_mapping = isinstance(node, yaml.MappingNode)`), whose names and attributes the function never assigns, is replaced by that
+        expression wherever it is read - all reads must come later in the block of the binding (so the binding dominates them)"""
         import copy
         stored_attrs = {n.attr for n in ast.walk(fn) if isinstance(n, ast.Attribute) and isinstance(n.ctx, (ast.Store, ast.Del))}
         args = {a.arg for a in ast.walk(fn.args) if isinstance(a, ast.arg)}
-        for st in list(fn.body):
-            if not (isinstance(st, ast.Assign) and len(st.targets) == 1 and isinstance(st.targets[0], ast.Name)
-                    and isinstance(st.value, ast.Attribute) and _is_chain(st.value)):
-                continue
-            v = st.targets[0].id
-            chain_attrs = {n.attr for n in ast.walk(st.value) if isinstance(n, ast.Attribute)}
-            root = st.value
-            while isinstance(root, ast.Attribute):
-                root = root.value
-            if v in args or chain_attrs & stored_attrs or _captured(fn, v):
-                continue
-            stores = [n for n in ast.walk(fn) if isinstance(n, ast.Name) and n.id == v and not isinstance(n.ctx, ast.Load)]
-            root_stores = [n for n in ast.walk(fn) if isinstance(n, ast.Name) and n.id == root.id and not isinstance(n.ctx, ast.Load)]
-            if len(stores) != 1 or root_stores:
-                continue
-            loads = [n for n in ast.walk(fn) if isinstance(n, ast.Name) and n.id == v and isinstance(n.ctx, ast.Load)]
-            if not loads or any((getattr(n, 'lineno', 0), getattr(n, 'col_offset', 0)) <= (st.lineno, st.col_offset) for n in loads):
-                continue
-            for n in loads:
-                _replace(fn, n, ast.copy_location(copy.deepcopy(st.value), n))
-            fn.body.remove(st)
-            if not fn.body:
-                fn.body.append(ast.copy_location(ast.Pass(), st))
+
+        def total(e):
+            if _is_chain(e) and isinstance(e, ast.Attribute):
+                return True
+            if isinstance(e, ast.Compare) and any(isinstance(n, ast.Attribute) for n in ast.walk(e)):
+                pass
+            if isinstance(e, ast.Call) and isinstance(e.func, ast.Name) and e.func.id in ('isinstance', 'issubclass', 'hasattr') \
+                    and len(e.args) == 2 and not e.keywords and _is_chain(e.args[0]):
+                b = e.args[1]
+                return isinstance(b, ast.Constant) or _is_chain(b) or (isinstance(b, ast.Tuple) and all(_is_chain(x) for x in b.elts))
+            if isinstance(e, ast.Compare) and len(e.ops) == 1 and isinstance(e.ops[0], (ast.In, ast.NotIn, ast.Is, ast.IsNot)) \
+                    and all(_is_chain(x) or isinstance(x, ast.Constant) for x in (e.left, e.comparators[0])):
+                return True
+            return False
+        for blk in _Norm._blocks(fn):
+            for st in list(blk):
+                if not (isinstance(st, ast.Assign) and len(st.targets) == 1 and isinstance(st.targets[0], ast.Name)):
+                    continue
+                # N31: `names = set(CHAIN)` that is only ever asked `x in names` is CHAIN for that purpose
+                if (isinstance(st.value, ast.Call) and isinstance(st.value.func, ast.Name) and st.value.func.id in ('set', 'frozenset')
+                        and len(st.value.args) == 1 and not st.value.keywords and _is_chain(st.value.args[0])
+                        and isinstance(st.value.args[0], ast.Attribute)):
+                    v0 = st.targets[0].id
+                    uses = [n for n in ast.walk(fn) if isinstance(n, ast.Name) and n.id == v0 and isinstance(n.ctx, ast.Load)]
+                    member = [c.comparators[0] for c in ast.walk(fn) if isinstance(c, ast.Compare) and len(c.ops) == 1
+                              and isinstance(c.ops[0], (ast.In, ast.NotIn))]
+                    if uses and all(any(u is m for m in member) for u in uses):
+                        st.value = st.value.args[0]
+                if not total(st.value):
+                    continue
+                v = st.targets[0].id
+                chain_attrs = {n.attr for n in ast.walk(st.value) if isinstance(n, ast.Attribute)}
+                roots = {n.id for n in ast.walk(st.value) if isinstance(n, ast.Name)}
+                if v in args or chain_attrs & stored_attrs or _captured(fn, v):
+                    continue
+                stores = [n for n in ast.walk(fn) if isinstance(n, ast.Name) and n.id == v and not isinstance(n.ctx, ast.Load)]
+                root_stores = [n for n in ast.walk(fn) if isinstance(n, ast.Name) and n.id in roots and not isinstance(n.ctx, ast.Load)
+                               and (n.lineno, n.col_offset) > (st.lineno, st.col_offset)]
+                if len(stores) != 1 or root_stores:
+                    continue
+                loads = [n for n in ast.walk(fn) if isinstance(n, ast.Name) and n.id == v and isinstance(n.ctx, ast.Load)]
+                later = blk[blk.index(st) + 1:]
+                in_later = {id(n) for x in later for n in ast.walk(x)}
+                if not loads or any(id(n) not in in_later for n in loads):
+                    continue
+                for n in loads:
+                    _replace(fn, n, ast.copy_location(copy.deepcopy(st.value), n))
+                blk.remove(st)
+                if not blk:
+                    blk.append(ast.copy_location(ast.Pass(), st))
 
     @staticmethod
     def _blocks(fn):
